@@ -36,7 +36,8 @@ class EventSnapshot:
         :param frames: the captured frames
         :param var_lookup: the captured variables.
         """
-        self._id = random.getrandbits(128)
+        # an id of our own: do not draw from (and thereby advance) the application's global generator
+        self._id = random.SystemRandom().getrandbits(128)
         self._tracepoint = tracepoint
         self._var_lookup: Dict[str, 'Variable'] = var_lookup
         self._ts_nanos = ts
